@@ -26,6 +26,7 @@ def _bounds_ok(n, lo, hi):
 
 def task_numeral(base, nmin, nmax, ext, L):
     src = "Numeral(%d, %d, %r, is_extensible=%r)" % (base, nmin, nmax, ext)
+    common.note_construction(src)
     name = "numeral %s N<=%d" % (src, L)
     try:
         common.import_pregex()
@@ -64,6 +65,7 @@ def task_numeral(base, nmin, nmax, ext, L):
 
 def task_word(mn, mx, is_global, ext, L):
     src = "Word(%d, %r, is_global=%r, is_extensible=%r)" % (mn, mx, is_global, ext)
+    common.note_construction(src)
     name = "word %s N<=%d" % (src, L)
     try:
         common.import_pregex()
@@ -100,6 +102,7 @@ def task_word(mn, mx, is_global, ext, L):
 def task_affix(kind, affixes, is_global, ext, L):
     arg = list(affixes) if len(affixes) > 1 else affixes[0]
     src = "%s(%r, is_global=%r, is_extensible=%r)" % (kind, arg, is_global, ext)
+    common.note_construction(src)
     name = "affix %s N<=%d" % (src, L)
     try:
         common.import_pregex()
